@@ -30,11 +30,17 @@ class Opaque:
 
 
 class Agg:
-    __slots__ = ("tag", "fields")
+    __slots__ = ("tag", "fields", "names")
 
-    def __init__(self, tag, fields):
+    def __init__(self, tag, fields, names=None):
         self.tag = tag
         self.fields = list(fields)
+        self.names = list(names) if names else None
+
+    def field(self, name):
+        if self.names and name in self.names:
+            return self.fields[self.names.index(name)]
+        return None
 
     def __repr__(self):
         return f"{self.tag}{self.fields}"
@@ -420,6 +426,15 @@ class Evaluation:
         m = re.match(r"^(-?\d+)_(\w+)$", t)
         if m and m.group(2) in INT_BITS:
             return z3.BitVecVal(int(m.group(1)), INT_BITS[m.group(2)])
+        m = re.match(r"^core::num::<impl ([iu](?:8|16|32|64|128|size))>::(MAX|MIN)$", t)
+        if m:
+            ty, which = m.group(1), m.group(2)
+            bits = INT_BITS[ty]
+            if ty in SIGNED:
+                v = (1 << (bits - 1)) - 1 if which == "MAX" else -(1 << (bits - 1))
+            else:
+                v = (1 << bits) - 1 if which == "MAX" else 0
+            return z3.BitVecVal(v, bits)
         m = re.match(r"^'(.)'$", t)
         if m:
             return z3.BitVecVal(ord(m.group(1)), 32)
@@ -515,8 +530,11 @@ class Evaluation:
             v = self.const_value(op[1])
             ty = ""
             m = re.match(r"^-?\d+_(\w+)$", op[1].strip())
+            m2 = re.match(r"^core::num::<impl (\w+)>::(MAX|MIN)$", op[1].strip())
             if m:
                 ty = m.group(1)
+            elif m2:
+                ty = m2.group(1)
             elif op[1].strip() in ("true", "false"):
                 ty = "bool"
             return v, ty
@@ -658,7 +676,7 @@ class Evaluation:
         if k == "aggregate":
             return Agg(rv[1], [self.read_operand(env, o)[0] for o in rv[2]])
         if k == "aggregate_named":
-            return Agg(rv[1], [self.read_operand(env, o)[0] for (_, o) in rv[2]])
+            return Agg(rv[1], [self.read_operand(env, o)[0] for (_, o) in rv[2]], [n for (n, _) in rv[2]])
         if k == "len":
             v, _ = self.read_place(env, rv[1])
             return Opaque(f"len({describe(v)})")
